@@ -1060,3 +1060,7 @@ mod test {
         }
     }
 }
+
+#[cfg(any(kani, libtw2_verif))]
+#[path = "/verif/kani/net_protocol7.rs"]
+mod verif_kani;
